@@ -248,11 +248,11 @@ theorem other_sheet_move_stable {F : Fold} {b b' : Book} {i j : Nat}
   rw [refId_eq, refId_eq]
   exact idByName_perm hp (uniqueMem_of_nodupUp F.up hU) _
 
-/-- **delete of another sheet**: stored names are untouched, every reference to a remaining sheet
-    keeps denoting that sheet -/
+/-- **delete of another sheet**: exactly the names local to the deleted sheet go, every other stored
+    name is untouched (same entry, same order), every reference to a remaining sheet keeps denoting it -/
 theorem other_sheet_delete_stable {F : Fold} {b b' : Book} {i : Nat}
     (hU : b.UniqueNames F) (h : deleteSheet b i = .ok b') :
-    b'.names = b.names ∧
+    b'.names = b.names.filter (fun d => d.scope != (b.sheets[i]?).map (·.id)) ∧
       ∀ x ∈ b'.sheets, x ∈ b.sheets ∧ idByName b'.sheets x.name = idByName b.sheets x.name := by
   unfold deleteSheet at h
   split at h
@@ -265,51 +265,85 @@ theorem other_sheet_delete_stable {F : Fold} {b b' : Book} {i : Nat}
       have hsub : ∀ y, y ∈ b.sheets.eraseIdx i → y ∈ b.sheets := fun y hy => List.mem_of_mem_eraseIdx hy
       exact ⟨hsub x hx, idByName_sublist_mem hsub (uniqueMem_of_nodupUp F.up hU) x.name hx rfl⟩
 
-/-! ### F27a: a name scoped to a deleted sheet is left behind and reported as global -/
+/-! ### F27a (repaired): the names local to a deleted sheet are deleted with it -/
 
-/-- the full statement: after any successful `delete_sheet`, no stored name is reported with a scope
-    it did not have (a sheet-local name is never reported as global) -/
-def C32_delete_full : Prop :=
-  ∀ (b b' : Book) (i : Nat), deleteSheet b i = .ok b' →
-    ∀ d ∈ b'.names, d.scope.isSome → (d.scope.bind (idIndex b'.sheets)).isSome
+/-- every sheet-local name belongs to an existing sheet (C27's `namesScoped`) -/
+def Book.NamesScoped (b : Book) : Prop :=
+  ∀ d ∈ b.names, ∀ sid, d.scope = some sid → ∃ x ∈ b.sheets, x.id = sid
+
+theorem idIndex_isSome_of_mem {l : List Sheet} {x : Sheet} (hx : x ∈ l) : (idIndex l x.id).isSome := by
+  induction l with
+  | nil => cases hx
+  | cons a as ih =>
+    unfold idIndex
+    by_cases ha : a.id = x.id
+    · simp [ha]
+    · simp only [ha, if_false]
+      cases hx with
+      | head => exact absurd rfl ha
+      | tail _ hm =>
+        have := ih hm
+        cases hi : idIndex as x.id with
+        | none => simp [hi] at this
+        | some k => simp
+
+/-- **C32 (delete).** After any successful `delete_sheet` on a workbook whose local names belong to
+    existing sheets: no name of the deleted sheet is left, and every remaining local name still
+    belongs to an existing sheet — so none is reported (or parsed) as a global name.  (On the
+    pinned tree this failed: `witnessF27a`.) -/
+theorem delete_sheet_names_scoped {b b' : Book} {i : Nat} (hS : b.NamesScoped)
+    (h : deleteSheet b i = .ok b') :
+    b'.NamesScoped ∧ (∀ d ∈ b'.names, d.scope.isSome → (d.scope.bind (idIndex b'.sheets)).isSome) ∧
+      ∀ sh, b.sheets[i]? = some sh → ∀ d ∈ b'.names, d.scope ≠ some sh.id := by
+  unfold deleteSheet at h
+  split at h
+  · cases h
+  · split at h
+    · cases h
+    · rename_i h1 h2
+      cases h
+      have hi : i < b.sheets.length := by omega
+      obtain ⟨sh, hsh⟩ : ∃ sh, b.sheets[i]? = some sh := ⟨b.sheets[i], by simp [hi]⟩
+      have hscoped : Book.NamesScoped
+          { sheets := b.sheets.eraseIdx i,
+            names := b.names.filter fun d => d.scope != (b.sheets[i]?).map (·.id) } := by
+        intro d hd sid hs
+        simp only [List.mem_filter, hsh, Option.map_some] at hd
+        obtain ⟨x, hx, hid⟩ := hS d hd.1 sid hs
+        have hne : sid ≠ sh.id := by
+          intro e; have := hd.2; rw [hs, e] at this; simp at this
+        obtain ⟨k, hk⟩ := List.mem_iff_getElem?.mp hx
+        have hki : k ≠ i := by
+          intro e; subst e; rw [hsh] at hk; cases hk; exact hne hid.symm
+        refine ⟨x, ?_, hid⟩
+        apply List.mem_iff_getElem?.mpr
+        by_cases hlt : k < i
+        · exact ⟨k, by rw [List.getElem?_eraseIdx]; simp [hlt, hk]⟩
+        · refine ⟨k - 1, ?_⟩
+          rw [List.getElem?_eraseIdx]
+          have c1 : ¬ (k - 1 < i) := by omega
+          have c2 : k - 1 + 1 = k := by omega
+          simp [c1, c2, hk]
+      refine ⟨hscoped, ?_, ?_⟩
+      · intro d hd hsome
+        cases hs : d.scope with
+        | none => rw [hs] at hsome; cases hsome
+        | some sid =>
+          obtain ⟨x, hx, hid⟩ := hscoped d hd sid hs
+          simp only [Option.bind_some]
+          rw [← hid]; exact idIndex_isSome_of_mem hx
+      · intro sh' hsh' d hd
+        rw [hsh] at hsh'; cases hsh'
+        simp only [List.mem_filter, hsh, Option.map_some] at hd
+        intro e; have := hd.2; rw [e] at this; simp at this
 
 def witnessF27a : Book :=
   { sheets := [ { name := "Sheet1", id := 1, formulas := [] }, { name := "Sheet2", id := 2, formulas := [] } ],
-    names := [ { name := "loc", scope := some 2, formula := .ref .cell (some "Sheet2") "$A$1" } ] }
+    names := [ { name := "loc", scope := some 2, formula := .ref .cell (some "Sheet2") "$A$1" },
+               { name := "glob", scope := none, formula := .ref .cell (some "Sheet1") "$A$1" } ] }
 
-theorem C32_delete_full_false : ¬ C32_delete_full := by
-  intro h
-  have := h witnessF27a { witnessF27a with sheets := [ { name := "Sheet1", id := 1, formulas := [] } ] } 1 rfl
-    { name := "loc", scope := some 2, formula := .ref .cell (some "Sheet2") "$A$1" } (by simp [witnessF27a]) rfl
-  revert this
-  decide
-
-/-- what is true on the pinned tree (`C32_delete_partial`): names whose sheet survives keep their
-    scope index up to the shift of the vector, i.e. their sheet id is still found -/
-theorem C32_delete_partial {b b' : Book} {i : Nat} (_h : deleteSheet b i = .ok b')
-    (d : DefName) (_hd : d ∈ b'.names) (sid : Nat) (hs : d.scope = some sid)
-    (hsurv : ∃ x ∈ b'.sheets, x.id = sid) : (d.scope.bind (idIndex b'.sheets)).isSome := by
-  obtain ⟨x, hx, hid⟩ := hsurv
-  rw [hs]
-  simp only [Option.bind_some]
-  have key : ∀ (l : List Sheet), x ∈ l → (idIndex l sid).isSome := by
-    intro l
-    induction l with
-    | nil => intro h; cases h
-    | cons a as ih =>
-      intro hm
-      unfold idIndex
-      by_cases ha : a.id = sid
-      · simp [ha]
-      · simp only [ha, if_false]
-        cases hm with
-        | head => exact absurd hid ha
-        | tail _ hm' =>
-          have := ih hm'
-          cases hi : idIndex as sid with
-          | none => simp [hi] at this
-          | some k => simp
-  exact key _ hx
+/-- the former counterexample: `loc` goes with Sheet2, the global name stays -/
+example : (deleteSheet witnessF27a 1).toOption.map (fun b' => b'.names.map (·.name)) = some ["glob"] := by decide
 
 /-! ### non-vacuity -/
 
